@@ -767,9 +767,9 @@ func (s *vSerSys) Key() string {
 
 func vSerShards(mode, tier string) []vShard {
 	var sh []vShard
-	maxN, depth, cont := 2, 3, 1
+	maxN, depth, cont := 3, 4, 1
 	if tier == "thorough" {
-		maxN, depth, cont = 3, 5, 2
+		maxN, depth, cont = 3, 6, 2
 	}
 	for _, k := range vSerKinds(tier) {
 		k := k
